@@ -251,6 +251,65 @@ def judgeNestedOps (c : Case) (o : ObsLine) : Verdict :=
         s!"{g "x"}: written {g "ox"}, parsed {a}; {g "y"}: written {g "oy"}, parsed {b}"
     | _, _ => .violation "nested statements of one type are not joined by the operator written between them" "combination node missing"
 
+/-- a parenthesised group that has shared text of its own, standing beside another combination
+    or inside further shared text (witnesses of an open finding). Judged by what the property
+    demands at least: no annotated value is lost, the values keep their order, no shared text
+    contains a parenthesis, every word written outside the combinations is shared text somewhere. -/
+def sharedGroupWitnessCases (tagp : String) : Array Case := Id.run do
+  let kf := "C01-shared-text-group-beside-or-inside-other-shared-text"
+  let ws : List (String × List String × List String) := [
+    ("A(actor) I(act) Cex((a [AND] b) mid (pre (c [OR] d) post))", ["a", "b", "c", "d"], ["mid", "pre", "post"]),
+    ("A(actor) I(act) Cex((l1 (a [AND] b) r1) (l2 (c [OR] d) r2))", ["a", "b", "c", "d"], ["l1", "r1", "l2", "r2"]),
+    ("A(actor) I(act) Cex(l1 (l2 (a [AND] b) r2) r1)", ["a", "b"], ["l1", "l2", "r2", "r1"]),
+    -- controls: the simple documented forms of the same texts
+    ("A(actor) I(act) Cex(pre (c [OR] d) post)", ["c", "d"], ["pre", "post"]),
+    ("A(actor) I(act) Cex((a [AND] b) mid (c [OR] d))", ["a", "b", "c", "d"], ["mid"])]
+  let mut out : Array Case := #[]
+  let mut k := 0
+  for (t, leaves, words) in ws do
+    out := out.push { id := s!"{tagp}-sg{k}", op := "parse", args := Json.mkObj [("text", (t : Json))], tag := "shared-groups",
+                      note := Json.mkObj [("kf", ((if k < 3 then kf else "") : Json)),
+                                          ("leaves", Json.arr (leaves.map (fun (x : String) => (x : Json))).toArray),
+                                          ("words", Json.arr (words.map (fun (x : String) => (x : Json))).toArray)] }
+    k := k + 1
+  pure out
+
+partial def collectLeavesShared (n : Json) : List String × List String :=
+  let strs := fun (k : String) => match (n.getObjVal? k).toOption with
+    | some (.arr a) => a.toList.filterMap (fun x => x.getStr?.toOption)
+    | _ => []
+  let own := strs "sl" ++ strs "sr"
+  match (n.getObjValAs? String "k").toOption with
+  | some "C" =>
+    let l := match (n.getObjVal? "l").toOption with | some x => collectLeavesShared x | none => ([], [])
+    let r := match (n.getObjVal? "r").toOption with | some x => collectLeavesShared x | none => ([], [])
+    (l.1 ++ r.1, own ++ l.2 ++ r.2)
+  | some "L" => ([(n.getObjValAs? String "t").toOption.getD ""], own)
+  | _ => ([], own)
+
+def judgeSharedGroups (c : Case) (o : ObsLine) : Verdict :=
+  let lst := fun (k : String) => match (c.note.getObjVal? k).toOption with
+    | some (.arr a) => a.toList.filterMap (fun x => x.getStr?.toOption)
+    | _ => []
+  if o.st ≠ "ok" then .violation "well-formed statement rejected" s!"{o.st} {o.code}" else
+  let fields : List Json := match (o.obs.getObjVal? "nodes").toOption with
+    | some (.arr #[n]) => (match (n.getObjVal? "s").toOption with | some (.arr a) => a.toList | _ => [])
+    | _ => []
+  let node := (fields.filterMap fun f => match f with
+    | .arr #[.str "ExecutionConstraintSimple", nd] => some nd
+    | _ => none).head?
+  match node with
+  | none => .violation "component missing from the parsed statement" "Cex"
+  | some nd =>
+    let (leaves, shared) := collectLeavesShared nd
+    if leaves ≠ lst "leaves" then
+      .violation "annotated values lost or reordered" s!"expected {lst "leaves"}, parsed {leaves} (shared text {shared})"
+    else if shared.any (fun t => t.contains '(' || t.contains ')') then
+      .violation "shared text contains a parenthesis" s!"{shared}"
+    else match (lst "words").find? (fun w => !(shared.any (fun t => (t.splitOn " ").contains w))) with
+      | some w => .violation "text written outside the combinations is lost" s!"'{w}' is in no shared text {shared}"
+      | none => .ok
+
 /-- every ordered pair of parenthesised component symbols -/
 def pairwiseSimpleCases (tagp : String) : Array Case := Id.run do
   let mut out : Array Case := #[]
